@@ -19,6 +19,9 @@ func genC04(c *Ctx) *Plan {
 	// healthy network: every packet within half the probe timeout, no loss
 	p.Net.MinDelay = 1000
 	p.Net.MaxDelay = int64(ms(p.Cfg.ProbeTimeoutMs))/2 - 2000
+	if pi := int64(ms(p.Cfg.ProbeIntervalMs))/2 - 2000; p.Net.MaxDelay > pi {
+		p.Net.MaxDelay = pi // a round trip must also fit the probe interval itself
+	}
 	if r.chance(0.3) {
 		p.Net.MaxDelay = 1_000_000
 	}
